@@ -27,6 +27,8 @@ extern "C" {
 int nondet_int(void); unsigned nondet_uint(void); long nondet_long(void); unsigned long nondet_ulong(void);
 double nondet_double(void); unsigned char nondet_uchar(void); signed char nondet_schar(void);
 }
+extern "C" { void *memcpy(void *dst, const void *src, unsigned long n); int memcmp(const void *a, const void *b, unsigned long n); void *memset(void *s, int c, unsigned long n); }
+namespace std { using ::memcpy; using ::memcmp; using ::memset; }      /* <cstring>: CBMC's own models */
 /* <cmath> classification functions a maintenance edit of the bodies under contract is likely to use (IEEE semantics, CBMC built-ins) */
 namespace std {
 inline bool isnan(double x) { return x != x; }
